@@ -7,6 +7,7 @@ import DaskModel.Model.Match
 import DaskModel.Model.Bytes
 import DaskModel.Model.KeySplit
 import DaskModel.Model.FormatTime
+import DaskModel.Model.ParseUnder
 import DaskModel.Model.ConfigExtIO
 open Dask
 
@@ -451,6 +452,16 @@ def hParse : Handler := handler fun args =>
     | .badUnit => pure (.list [.sym "bad-unit"])
   | _ => none
 
+/-- `(parse-bytes-u "s")`: `parse_bytes` with PEP-515 digit separators in the number (`Model/ParseUnder.lean`) -/
+def hParseU : Handler := handler fun args =>
+  match args with
+  | [s] => do
+    match parseBytesU (← s.toStr?) with
+    | .ok v => pure (.list [.sym "ok", .int v])
+    | .badNumber => pure (.list [.sym "bad-number"])
+    | .badUnit => pure (.list [.sym "bad-unit"])
+  | _ => none
+
 /-- `(parse-td "s" "default")` ↦ `(int v)` | `(float neg m e)` | `(IndexError)` | `(ValueError)` | `(KeyError)` -/
 def hParseTd : Handler := handler fun args =>
   match args with
@@ -514,7 +525,7 @@ def hTypename : Handler := handler fun args =>
   | _ => none
 
 def table : List (String × Handler) :=
-  [("fmt-bytes", hFmt), ("fmt-band", hBand), ("parse-bytes", hParse), ("parse-td", hParseTd), ("nat-sort", hNatSort),
+  [("fmt-bytes", hFmt), ("fmt-band", hBand), ("parse-bytes", hParse), ("parse-bytes-u", hParseU), ("parse-td", hParseTd), ("nat-sort", hNatSort),
    ("float-lit", hLit), ("key-split", hKeySplit), ("quot-general", hQuotGeneral), ("fmt-time", hFmtTime),
    ("typename", hTypename)]
 end C18
